@@ -299,16 +299,35 @@ func (r *AvPacket2RtmpRemuxer) FeedAvPacket(pkt base.AvPacket) {
 				r.hasAdts2Asc = true
 			}
 
-			// 只有adts头没有数据的包丢弃
-			if len(pkt.Payload) <= 7 {
-				return
+			// 一个包里可能有多个adts帧（比如ps流中一个pes包含多个音频帧），逐帧输出。
+			// 后面帧的时间戳在第一帧的基础上按每帧1024个采样点递增
+			b := pkt.Payload
+			for i := 0; len(b) > 0; i++ {
+				frameLen := len(b)
+				var ctx aac.AdtsHeaderContext
+				if err := ctx.Unpack(b); err == nil && int(ctx.AdtsLength) >= aac.AdtsHeaderLength && int(ctx.AdtsLength) < len(b) {
+					frameLen = int(ctx.AdtsLength)
+				}
+				frame := b[:frameLen]
+				b = b[frameLen:]
+
+				// 只有adts头没有数据的包丢弃
+				if len(frame) <= 7 {
+					continue
+				}
+				timestamp := pkt.Timestamp
+				if i > 0 {
+					if sr, err := ctx.AscCtx.GetSamplingFrequency(); err == nil && sr > 0 {
+						timestamp += int64(i * 1024 * 1000 / sr)
+					}
+				}
+				length := len(frame) - 5 // -7+2
+				payload := make([]byte, length)
+				payload[0] = 0xAF
+				payload[1] = base.RtmpAacPacketTypeRaw
+				copy(payload[2:], frame[7:])
+				r.emitRtmpAvMsg(true, payload, timestamp)
 			}
-			length := len(pkt.Payload) - 5 // -7+2
-			payload := make([]byte, length)
-			payload[0] = 0xAF
-			payload[1] = base.RtmpAacPacketTypeRaw
-			copy(payload[2:], pkt.Payload[7:])
-			r.emitRtmpAvMsg(true, payload, pkt.Timestamp)
 		}
 
 	case base.AvPacketPtG711A:
